@@ -551,7 +551,18 @@ impl Stream {
             let last_delivered = group.get_last_id();
             data.range_after(&last_delivered, count).entries
         } else {
-            data.range_after(&after_id, count).entries
+            // Explicit ID: the consumer's own pending history after that ID.
+            // Nothing is delivered anew, so the PEL and the cursor stay as they are.
+            let ids = group.pending_history(consumer_name, after_id, count);
+            let entries: Vec<StreamEntry> = ids
+                .iter()
+                .filter_map(|id| {
+                    data.entries.binary_search_by(|e| e.id.cmp(id))
+                        .ok()
+                        .map(|idx| data.entries[idx].clone())
+                })
+                .collect();
+            return Ok(entries);
         };
         
         drop(data);
